@@ -6,6 +6,7 @@ pub mod c08;
 pub mod c09;
 pub mod c10;
 pub mod c14;
+pub mod c14s;
 pub mod c15;
 pub mod c16;
 pub mod c17;
@@ -32,6 +33,7 @@ pub fn dispatch(args: &Args, rep: &mut Rep) -> bool {
         "C02wide" | "C09wide" => wide::run(args, rep),
         "C11" | "C12" | "C13" => meta::run(args, rep),
         "C14" => c14::run(args, rep),
+        "C14sym" => c14s::run(args, rep),
         "C15" => c15::run(args, rep),
         "C16" => c16::run(args, rep),
         "C17" => c17::run(args, rep),
